@@ -225,7 +225,27 @@ func BuildCriteria(c *cs.Crit) query.Criteria {
 
 // BuildQuery issues the builder calls in the order the case records them.
 func BuildQuery(q *cs.Query) *query.Query {
+	// Every builder method returns a new query in which the given setting replaces the earlier
+	// one (a negative Skip is ignored and keeps it). A deterministic part of the cases is
+	// therefore built the way callers derive queries from one another: an earlier Where / Sort /
+	// Skip / Limit is set first and then overridden by the one under test.
+	h := cs.Hash(q)
 	cq := query.NewQuery(q.Coll)
+	if h%7 == 0 {
+		cq = cq.Where(query.Field("zz").Eq(1)).Sort(query.SortOption{Field: "zz", Direction: -1}).Limit(3)
+		if q.Skip != nil && *q.Skip >= 0 {
+			cq = cq.Skip(4)
+		}
+		if q.Crit == nil {
+			cq = cq.Where(nil)
+		}
+		if !q.SortSet {
+			cq = query.NewQuery(q.Coll).Where(cq.Criteria()).Skip(cq.GetSkip()).Limit(cq.GetLimit())
+		}
+		if q.Limit == nil {
+			cq = cq.Limit(-1) // a negative limit lifts the earlier one
+		}
+	}
 	if q.Crit != nil {
 		cq = cq.Where(BuildCriteria(q.Crit))
 	}
